@@ -740,6 +740,10 @@ func (ctx Ctx) callExpr(s *ast.CallExpr) coq.Expr {
 		return ctx.capExpr(s)
 	}
 	if isIdent(s.Fun, "append") {
+		if len(s.Args) != 2 {
+			// append(s) has no element, append(s, a, b) would lose b
+			ctx.unsupported(s, "append of other than one element or one slice")
+		}
 		elemTy := sliceElem(ctx.typeOf(s.Args[0]).Underlying())
 		if s.Ellipsis == token.NoPos {
 			return coq.NewCallExpr(coq.GallinaIdent("SliceAppend"),
